@@ -206,6 +206,9 @@ func explodeNode(node *CandidateNode, context Context) error {
 			node.AddChildren(node.Alias.Content)
 			node.Value = node.Alias.Value
 			node.Alias = nil
+			// what was copied in may hold aliases and merge keys of its own
+			// (it is only already exploded when its anchor was visited first)
+			return explodeNode(node, context)
 		}
 		log.Debug("now I'm %v", NodeToString(node))
 		return nil
